@@ -3,5 +3,9 @@ CONSTANTS W = 1
           WS = 1
           Deep = {}
           OptSet = {"default"}
+          Reps = 1
+          RepW = 0
+          Which = "all"
+          MutualFull = FALSE
 INVARIANTS L2Sound
 CHECK_DEADLOCK FALSE
